@@ -733,6 +733,53 @@ Definition effect_of (s : st) (E : env) (text : str) : effect :=
        end.
 
 (* ------------------------------------------------------------------ *)
+(* the decidable form of the [grant] relation of C02_grow_only_entitled (C02/Grant.v proves grantb = true <-> grant):
+   may the message `text` from E's sender, in state s, put capability c into account z?  The harness evaluates it
+   on the REAL before-state for every capability that appears in an account. *)
+Definition admin_add_words : list str :=
+  [[97; 100; 109; 105; 110]; [99; 97; 112; 97; 98; 105; 108; 105; 116; 121]; [97; 100; 100]].      (* admin capability add *)
+Definition chan_add_words : list str :=
+  [[99; 104; 97; 110; 110; 101; 108]; [99; 97; 112; 97; 98; 105; 108; 105; 116; 121]; [97; 100; 100]].  (* channel capability add *)
+
+Definition is_ok {A} (r : res A) : bool := match r with Ok _ => true | Raise _ => false end.
+
+Definition grantb_admin (s : st) (E : env) (n craw : str) (z : Z) (c : str) : bool :=
+  negb (gate_blocked s E admin_add_words) &&
+  match conv_other s E n with
+  | Some u =>
+      Z.eqb (aid u) z && seq_eqb c (C03.Model.fold craw) && C16.Model.token c
+      && negb (seq_eqb (C03.Model.fold c) OWNER)
+      && (C03.Model.isAntiCapability c || holds s E c)
+      && is_ok (C03.Model.ucs_add (caps u) c)
+  | None => false
+  end.
+
+Definition grantb_chan (s : st) (E : env) (ch n craw : str) (z : Z) (c : str) : bool :=
+  negb (gate_blocked s E chan_add_words) && C03.Model.isChannel ch && holds s E (ch ++ [COMMA] ++ OP) &&
+  match conv_other s E n, C16.Model.split_ws craw with
+  | Some u, [w] =>
+      Z.eqb (aid u) z && seq_eqb c (C03.Model.fold (ch ++ [COMMA] ++ w))
+      && is_ok (C03.Model.ucs_add (caps u) (ch ++ [COMMA] ++ w))
+  | _, _ => false
+  end.
+
+Definition grantb (s : st) (E : env) (text : str) (z : Z) (c : str) : bool :=
+  negb (ignored s E) &&
+  match tokens text with
+  | None => false
+  | Some toks =>
+      match strip_words admin_add_words toks with
+      | Some [n; craw] => grantb_admin s E n craw z c
+      | Some _ => false
+      | None =>
+          match strip_words chan_add_words toks with
+          | Some [ch; n; craw] => grantb_chan s E ch n craw z c
+          | _ => false
+          end
+      end
+  end.
+
+(* ------------------------------------------------------------------ *)
 (* histories *)
 
 Inductive op :=
@@ -851,12 +898,14 @@ Fixpoint trace (s : st) (ops : list op) : list value :=
 (* run (kind payload):
    0: (state ops)   -> list of (dump reload_dom names_safe effect) after each op
    1: text          -> tokens of a command text (or () when outside the model)
-   2: ()            -> specs_ok on the regenerated table *)
+   2: ()            -> specs_ok on the regenerated table
+   3: (state env text id cap) -> grantb: does the [grant] relation allow this capability to appear? *)
 Definition run (v : value) : value :=
   let p := nth_v 1 v in
   match gN (nth_v 0 v) with
   | 0 => L (trace (gSt (nth_v 0 p)) (map gOp (gL (nth_v 1 p))))
   | 1 => vO vLS (tokens (gS p))
   | 2 => vB (specs_ok gen.T02.SPECS)
+  | 3 => vB (grantb (gSt (nth_v 0 p)) (gEnv (nth_v 1 p)) (gS (nth_v 2 p)) (gZ (nth_v 3 p)) (gS (nth_v 4 p)))
   | _ => L []
   end.
